@@ -200,7 +200,7 @@ pub fn hostile_dir_case(a: &Args, idx: u64, acc: &mut Acc) {
 }
 
 pub fn run_dedicated(a: &Args) -> Acc {
-    let mut acc = par_run(a, "c13-stale", a.n(3000, 60000), stale_handle_case);
-    acc.merge(par_run(a, "c13-hostile-dir", a.n(1500, 30000), hostile_dir_case));
+    let mut acc = par_run(a, "c13-stale", a.n(3000, 30000), stale_handle_case);
+    acc.merge(par_run(a, "c13-hostile-dir", a.n(1500, 15000), hostile_dir_case));
     acc
 }
